@@ -39,7 +39,8 @@ type SeqModel struct {
 	// crafted initial stores (CraftN > 0): drawn at random by TLC
 	CraftN, CraftTasks, CraftEpics int
 	CraftLegacy                    bool
-	SimSample                      int // simulation only: successors drawn per step (0 = all)
+	CraftLegal                     bool // only (state, claimant) pairs the claim rule admits
+	SimSample                      int  // simulation only: successors drawn per step (0 = all)
 	// state x command engine: execute only these commands of the alphabet from each
 	// state (nil = all); the histories that lead to the states are executed anyway
 	AlphaOnly []string
@@ -67,6 +68,9 @@ func (m SeqModel) cfg(dev string, emit string, props, invs []string) string {
 		mode = "random"
 		if m.CraftLegacy {
 			mode = "legacy"
+		}
+		if m.CraftLegal {
+			mode = "legal"
 		}
 	}
 	fmt.Fprintf(&b, "  SimSample = %d\n", m.SimSample)
